@@ -31,6 +31,11 @@ import (
 	"seehuhn.de/go/postscript/psenc"
 )
 
+// maxCompositeCmds is the maximum number of path commands in a seac glyph.
+// A charstring has at most 65535 bytes, so two simple components together
+// always stay below this limit.
+const maxCompositeCmds = 1 << 17
+
 // Read reads a Type 1 font from a reader.
 // The function supports both ".pfa" and ".pfb" files.
 func Read(r io.Reader) (*Font, error) {
@@ -300,6 +305,12 @@ creationDateLoop:
 		accent := glyphs[psenc.StandardEncoding[seac.accent]]
 		if base == nil || accent == nil {
 			continue
+		}
+		// A component may itself be a composite glyph which has already been
+		// assembled.  Bound the size of the result, so that chains of such
+		// glyphs cannot double the outline at every level.
+		if len(base.Cmds)+len(accent.Cmds) > maxCompositeCmds {
+			return nil, errors.New("composite glyph too large")
 		}
 		g := glyphs[seac.name] // TODO(voss): do we need to make a copy here?
 		g.Cmds = append(g.Cmds[:0], base.Cmds...)
